@@ -43,6 +43,26 @@ def tlc_cases(ctx, nodes, pert, rich, maxigs, simulate=None, depth=None):
     return out
 
 
+DEEP_CFG = """INIT DeepInit
+NEXT DeepNext
+CONSTANTS MaxNodes = 0 MaxPert = 0 Rich = FALSE DeepFull = %s
+CONSTRAINT Emit
+INVARIANT DeepOK
+CHECK_DEADLOCK FALSE
+"""
+
+
+def deep_cases(ctx):
+    """deep, narrow pairs (chains of 2..11 containers, >= 2 differences under the deepest parent): DiffDeep.tla"""
+    r = ctx.tlc("DiffDeep", DEEP_CFG % ("FALSE" if ctx.quick else "TRUE"), workers=1, timeout=600, heap="4g")
+    if r.error or r.violated:
+        raise Infra("DiffDeep failed:\n" + r.out[-2000:])
+    out = [{"a": c["a"], "b": c["b"], "igs": c["igs"]} for c in r.printed("CASE")]
+    if len(out) < 100:
+        raise Infra("DiffDeep emitted only %d cases" % len(out))
+    return out
+
+
 def judge(ctx, cases):
     """cases: path of an ndjson case file or a list of case dicts {a, b, igs, salt}. -> deviation records"""
     if not isinstance(cases, str):
@@ -136,6 +156,9 @@ def main(ctx):
     cases = tlc_cases(ctx, 3, 1, False, 14 if ctx.quick else 0)
     # every leaf kind incl. integers beyond 2^53 / at the ends of int64 with their near neighbours (rich alphabet)
     cases += tlc_cases(ctx, 2, 2, True, 0 if not ctx.quick else 8)
+    deep = deep_cases(ctx)
+    ctx.cov["model_pairs_deep_chains"] = len(deep)
+    cases += deep
     ctx.cov["model_pairs_exhaustive"] = len(cases)
     if ctx.quick:
         sim = tlc_cases(ctx, 7, 3, True, 6, simulate="num=60", depth=14)
@@ -172,7 +195,9 @@ def main(ctx):
     ctx.cov["rule"] = ("pairs (a, b) = every state of the perturbation phase of Diff.tla (base trees built node by node up to "
                        "MaxNodes, then 1..MaxPert perturbations: leaf same kind/other kind, int<->equal float, null<->absent "
                        "member, array tail insert/delete, member insert/delete, subtree replacement), exhaustive for small "
-                       "bounds and TLC -simulate for 7 nodes x 3 perturbations with the rich leaf alphabet; for every pair the "
+                       "bounds and TLC -simulate for 7 nodes x 3 perturbations with the rich leaf alphabet, plus deep narrow chains "
+                       "(DiffDeep.tla: 2..11 containers, arrays and objects along the chain, three members at the bottom of which two "
+                       "or three differ, path lengths 3..12); for every pair the "
                        "ignore-path sets of IgnSets (none, every location, wildcard variants, sibling indexes, pairs; pairs in "
                        "both orders); plus seeded random pairs. Each is replayed on simple data (mixed Go integer widths, "
                        "float32 where exact) and gen data, Diff and Compare in both argument orders, Match both ways. "
